@@ -168,6 +168,9 @@ def make_interp(ctx, gdim=3):
 def run(ctx) -> Report:
     rep = Report("C06", level="proof")
     prog = ctx.prog
+    # the memo-key clause first: it needs no interpretation, and what it finds is reported even if a later clause cannot follow the code
+    from ..memokey import check_memo_keys, memo_rule  # noqa: F401
+    memo_rule(ctx, rep, "C06-key", ['ufl.algorithms.apply_algebra_lowering', 'ufl.compound_expressions'])
     m = prog.module(MOD)
     ip = make_interp(ctx)
 
@@ -391,5 +394,4 @@ def run(ctx) -> Report:
     ]
     from ..memokey import memo_rule
 
-    memo_rule(ctx, rep, "C06-key", ['ufl.algorithms.apply_algebra_lowering', 'ufl.compound_expressions'])
     return rep
